@@ -1,35 +1,59 @@
 #!/usr/bin/env python3
-"""Re-run every check against every confirmed seeded change (applied to a scratch worktree of /repo HEAD that the checks read through SVT_REPO; reverted straight afterwards) and record in
-each meta.json which checks report a violation *now*.  Evidence of these runs goes to a scratch directory."""
+"""Re-run every check against every confirmed seeded change and record in each meta.json which checks report a violation
+that the seed's base tree does not have.  The seeded patch is applied to a scratch worktree (outside /repo and /verif) checked
+out at the /repo commit the seed was written against (meta.json base_commit); the checks read that tree through SVT_REPO with
+a separate fact cache, so /repo itself is never touched.  Usage: seed_rerun.py [seed ids...]"""
 import json, os, re, subprocess, sys, glob
 HERE = os.path.dirname(os.path.dirname(os.path.abspath(__file__)))
+W = '/tmp/seeds/rerun_wt'
 seeds = sorted(glob.glob(os.path.join(HERE, 'seeded', '*', 'patch.diff')))
 only = set(sys.argv[1:])
-W = '/tmp/seeds/verify_wt'   # scratch worktree of /repo HEAD (outside /repo and /verif); checks read it through SVT_REPO
-summary = {}
+os.makedirs('/tmp/seeds/evid', exist_ok=True)
+if not os.path.isdir(W):
+    subprocess.check_call(['git', '-C', '/repo', 'worktree', 'add', '--detach', W, 'HEAD'], stdout=subprocess.DEVNULL, stderr=subprocess.DEVNULL)
+head = subprocess.check_output(['git', '-C', '/repo', 'rev-parse', '--short', 'HEAD'], text=True).strip()
+base_cache = {}
+
+
+def run(tag):
+    out = '/tmp/seeds/evid/runall_%s.json' % tag
+    env = dict(os.environ, VERIF_EVID_DIR='/tmp/seeds/evid', SVT_REPO=W, SVT_CACHE='/tmp/seeds/cache_rerun', VERIF_RUNALL_JSON=out)
+    subprocess.run([sys.executable, os.path.join(HERE, 'tools', 'runall.py')], capture_output=True, text=True, env=env)
+    return json.load(open(out))
+
+
 for p in seeds:
     d = os.path.dirname(p); sid = os.path.basename(d)
     if only and sid not in only:
         continue
-    subprocess.run(['git', '-C', W, 'checkout', '-q', '--', '.'])
-    subprocess.run(['git', '-C', W, 'checkout', '-q', '--detach', subprocess.check_output(['git', '-C', '/repo', 'rev-parse', 'HEAD'], text=True).strip()])
-    r = subprocess.run(['git', '-C', W, 'apply', p])
-    if r.returncode:
-        print(sid, 'patch does not apply'); continue
-    try:
-        env = dict(os.environ, VERIF_EVID_DIR='/tmp/seeds/evid', SVT_REPO=W, SVT_CACHE='/tmp/seeds/cache')
-        os.makedirs('/tmp/seeds/evid', exist_ok=True)
-        out = subprocess.run([sys.executable, os.path.join(HERE, 'tools', 'runall.py')], capture_output=True, text=True, env=env).stdout
-    finally:
-        subprocess.run(['git', '-C', W, 'checkout', '-q', '--', '.'])
-    caught = re.findall(r'^(C\d\d) exit=1', out, re.M)
-    broken = re.findall(r'^(C\d\d) exit=2', out, re.M)
-    viol = [l.strip()[:400] for l in out.splitlines() if l.strip().startswith('violation:')]
     mf = os.path.join(d, 'meta.json')
     m = json.load(open(mf)) if os.path.exists(mf) else {}
-    m['checks_reporting_violation_now'] = caught
-    m['checks_analysis_broken_now'] = broken
-    m['violation_lines_now'] = viol[:8]
+    base = m.get('base_commit') or head
+    subprocess.run(['git', '-C', W, 'checkout', '-q', '--', '.'])
+    subprocess.check_call(['git', '-C', W, 'checkout', '-q', '--detach', base])
+    if base not in base_cache:
+        base_cache[base] = run('base_' + base)
+    b = base_cache[base]
+    if subprocess.run(['git', '-C', W, 'apply', p]).returncode:
+        print(sid, 'patch does not apply to', base); continue
+    try:
+        r = run(sid)
+    finally:
+        subprocess.run(['git', '-C', W, 'checkout', '-q', '--', '.'])
+    new = {}
+    for pid, v in r.items():
+        bv = set(b.get(pid, {}).get('violations', []))
+        nv = [l for k, l in zip(v['violations'], v['lines']) if k not in bv]
+        if nv:
+            new[pid] = nv
+        elif v['rc'] == 2 and b.get(pid, {}).get('rc') != 2:
+            new[pid] = ['ANALYSIS-BROKEN (exit 2)']
+    m['checks_reporting_new_violation_now'] = sorted(k for k, v in new.items() if v != ['ANALYSIS-BROKEN (exit 2)'])
+    m['checks_analysis_broken_now'] = sorted(k for k, v in new.items() if v == ['ANALYSIS-BROKEN (exit 2)'])
+    m['new_violation_lines_now'] = [l for v in new.values() for l in v][:8]
+    m['rerun_at_verif_commit'] = subprocess.check_output(['git', '-C', HERE, 'rev-parse', '--short', 'HEAD'], text=True).strip()
+    m['base_commit'] = base
+    for k in ('checks_reporting_violation_now', 'violation_lines_now'):
+        m.pop(k, None)
     json.dump(m, open(mf, 'w'), indent=1)
-    summary[sid] = (caught, broken)
-    print(sid, 'caught by', caught, 'broken', broken)
+    print(sid, 'base', base, 'caught by', m['checks_reporting_new_violation_now'], 'broken', m['checks_analysis_broken_now'])
